@@ -229,6 +229,9 @@ def generate_all(ctx):
 def project(c, out):
     # a NULL dereference is an error outcome of the model and a crash of the library (cases tagged `malformed` only; elsewhere verdict() reports the crash)
     if is_crash(out) or out.startswith('MODELERR=NullDeref'): return 'CRASH'
+    # likewise a release of borrowed memory is an error outcome of the model (it stops there) and a counted event of the tracking allocator (the
+    # library goes on): e.g. replacing a document root that carries a CONSTANT key (malformed stream: a document root has no name; DESIGN 11.6)
+    if out.startswith('MODELERR=ForeignFree') or ' FOREIGNFREE=' in out: return 'FOREIGNFREE'
     return out
 
 def verdict(c, out, ctx):
